@@ -143,7 +143,7 @@ T.update({
 
 T.update({
  'C01_g': dict(change='SignHashed: r == 0 retry test moved before the reduction mod n', needs='x1 + e = n: r = 0 emitted, own signature rejected', strengthened='no'),
- 'C02_g': dict(change='SignHashed: k != 0 test by four Uint64 loads, K[16:] loaded twice and K[24:] never', needs='nonce below 2^64 treated as zero and skipped', strengthened='no'),
+ 'C02_g': dict(change='SignHashed: k != 0 test by four Uint64 loads, K[16:] loaded twice and K[24:] never', needs='nonce below 2^64 treated as zero and skipped', strengthened='YES (replay readers returned (0,nil) at the end of their stream and stalled io.ReadFull on a tree that rejects more nonces; readers now deliver filler, special vectors decide)'),
  'C03_g': dict(change='VerifyHashed: IsInfinity rejection removed', needs='(r, s) with [s]G+[t]P at infinity and r = e mod n', strengthened='no'),
  'C04_g': dict(change='sm3 Write: buffered-tail branch requires nx < BlockSize', needs='message length 63 mod 64', strengthened='no'),
  'C05_g': dict(change='portable cryptoBlockX2 loads the third word of the high lane from block 0', needs='two different blocks on the portable X2 path', strengthened='no'),
